@@ -179,6 +179,7 @@ func Load(repo, tier string) *World {
 	}
 	initSprintf(w)
 	theWorld = w
+	rebindRenamedAnchors(w)
 	return w
 }
 
@@ -427,6 +428,9 @@ func calleeOf(info *types.Info, call *ast.CallExpr) *types.Func {
 func fullName(fn *types.Func) string {
 	if fn == nil {
 		return ""
+	}
+	if old, ok := renamedFull[fn]; ok {
+		return old // a renamed anchor answers to the name the rules know
 	}
 	return fn.FullName()
 }
